@@ -54,13 +54,13 @@ Free(s) ==
             /\ IF extra[s] > 0 THEN extra' = [extra EXCEPT ![s] = @ - 1] /\ app' = app
                                 ELSE extra' = Del(extra, s) /\ app' = app \ {s}
        ELSE /\ ref[s] > AppRefs(s)
-            /\ UNCHANGED <<app, extra, pend, shared>>
+            /\ UNCHANGED <<app, extra, pend>>
   /\ ref' = IF ref[s] = 1 THEN Del(ref, s) ELSE [ref EXCEPT ![s] = @ - 1]
   /\ live' = IF ref[s] = 1 THEN live \ {s} ELSE live
   /\ released' = IF ref[s] = 1 THEN released \cup {s} ELSE released
   /\ UNCHANGED <<sending, shared>>
 \* the application allocated s itself
-AppNew(s) == /\ s \in live /\ ref[s] = 1 /\ s \notin app
+AppNew(s) == /\ s \in live /\ ref[s] = 1 /\ s \notin app /\ s \notin sending
              /\ app' = app \cup {s} /\ extra' = Put(extra, s, 0) /\ UNCHANGED <<live, ref, sending, released, pend, shared>>
 \* Recv handed s to the application: it must be the only reference
 AppGot(s) == /\ s \in live /\ ref[s] = 1 /\ s \notin app /\ s \notin sending
